@@ -28,6 +28,7 @@ func c08(p *core.Prog, r *core.Report) {
 	c08Lazy(p, r)
 	c08Append(p, r)
 	c08PostRemapIDs(p, r, "C08-R2")
+	relayErrorFrameIDs(p, r, "C08-R2")
 	// the caller receives exactly what the destination produced: nothing of a
 	// call the relay has already ended (error frame sent) is forwarded.
 	r.Rule("C08-R6", "E6 paths/guards", 4, "no frame of an ended call is forwarded (shared with C10)")
